@@ -128,7 +128,11 @@ func snapOfProto(c *snapshotpb.JobCheckpoint) (*snapObs, error) {
 		if _, err := fmt.Sscanf(oc.OperatorId, "op-%d", &op); err != nil {
 			return nil, fmt.Errorf("operator id %q", oc.OperatorId)
 		}
-		if _, err := fmt.Sscanf(oc.DkvFileUri, "dkv/op-%d/ckpt-%d", &op2, &pl); err != nil {
+		u := oc.DkvFileUri
+		if i := strings.Index(u, "dkv/op-"); i > 0 {
+			u = u[i:] // absolute path in the real-directory mode
+		}
+		if _, err := fmt.Sscanf(u, "dkv/op-%d/ckpt-%d", &op2, &pl); err != nil {
 			return nil, fmt.Errorf("dkv uri %q", oc.DkvFileUri)
 		}
 		o.Entries = append(o.Entries, entry{op, oc.CheckpointId, pl})
